@@ -63,6 +63,11 @@ static void pipes_reset(void) { for (int i = 0; i < NPIPE; i++) { if (!HP[i]) { 
 static void hcopy(uint8_t *d, const uint8_t *s, size_t n) { IGN++; for (size_t i = 0; i < n; i++) ((volatile uint8_t *)d)[i] = s[i]; IGN--; }
 ssize_t send(int fd, const void *b, size_t n, int fl) { (void)fl; if (fd < 3000 || fd >= 3000 + NPIPE) { errno = EBADF; return -1; } hpipe *p = HP[(fd - 3000) ^ 1]; pthread_mutex_lock(&p->mu); if (p->w + n > sizeof p->buf) { pthread_mutex_unlock(&p->mu); errno = ENOBUFS; return -1; } hcopy(p->buf + p->w, (const uint8_t *)b, n); p->w += n; pthread_mutex_unlock(&p->mu); return (ssize_t)n; }
 ssize_t recv(int fd, void *b, size_t n, int fl) { (void)fl; if (fd < 3000 || fd >= 3000 + NPIPE) { errno = EBADF; return -1; } hpipe *p = HP[fd - 3000]; for (;;) { pthread_mutex_lock(&p->mu); size_t av = p->w - p->r; if (av) { if (n > av) n = av; hcopy((uint8_t *)b, p->buf + p->r, n); p->r += n; pthread_mutex_unlock(&p->mu); return (ssize_t)n; } int cl = p->closed; pthread_mutex_unlock(&p->mu); if (cl) return 0; wait_hook(fd - 3000); } }
+/* the descriptor numbers are the application's: a library call that closes the one it was handed frees a process-wide number that another thread's open() may be given
+   while the owner still uses (and later closes) it. close() on a pair descriptor from inside a task is recorded; other descriptors go to the kernel. */
+#include <sys/syscall.h>
+static volatile int LIB_CLOSES;
+int close(int fd) { if (fd >= 3000 && fd < 3000 + NPIPE) { __sync_fetch_and_add(&LIB_CLOSES, 1); return 0; } return (int)syscall(SYS_close, fd); }
 static void pipe_close_peer(int fd) { hpipe *p = HP[(fd - 3000) ^ 1]; pthread_mutex_lock(&p->mu); p->closed = 1; pthread_mutex_unlock(&p->mu); }
 static int pipe_ready(int id) { hpipe *p = HP[id]; return p->w != p->r || p->closed; }
 
@@ -125,7 +130,7 @@ static void op_names(int inst, out_t *o) {
 /* handshake: two tasks */
 #include "tlsh_min.h"
 static struct { const char *name; op_f f; int pair; } OPS[] = { { "hash", op_hash, 0 }, { "hmac-kdf", op_hmac, 0 }, { "sm4-modes", op_sm4, 0 }, { "zuc", op_zuc, 0 }, { "sm2-keygen-sign-verify", op_sm2sign, 0 }, { "sm2-encrypt-ecdh", op_sm2enc, 0 }, { "x509-sign-verify", op_x509, 0 }, { "cms-sign-encrypt", op_cms, 0 }, { "cms-envelop", op_cmsenv, 0 }, { "tls-record", op_record, 0 }, { "decode-malformed", op_decode_bad, 0 }, { "sm9-sign-verify", op_sm9, 0 }, { "pkcs8-encrypt", op_pkcs8, 0 }, { "misc-interfaces", op_misc, 0 }, { "names-and-printers", op_names, 0 },
-	{ "handshake-tlcp", NULL, 1 }, { "handshake-tls12", NULL, 2 }, { "handshake-tls13", NULL, 3 } };
+	{ "handshake-tlcp", NULL, 1 }, { "handshake-tls12", NULL, 2 }, { "handshake-tls13", NULL, 3 }, { "handshake-refused-tlcp", NULL, 4 }, { "handshake-refused-tls12", NULL, 5 }, { "handshake-refused-tls13", NULL, 6 } };
 #define NOPS ((int)(sizeof OPS / sizeof OPS[0]))
 
 /* a combination = list of task descriptors */
@@ -185,11 +190,11 @@ void __wrap_free(void *q) { if (q && SH && ME >= 0) { IGN++; size_t n = malloc_u
 static int NULLFD = -1;
 /* every execution runs in a forked child: library statics are in their pristine state at the start of each schedule (a lazily built
    table is built again, so its construction can be interleaved), and a crash is an observation of that schedule */
-typedef struct { out_t out[MAXT]; int ntr; pt_t tr[1 << 16]; int nneww; uintptr_t neww[MAXW]; int diverged, deadlock, done; uint64_t npoints; } shr_t; static shr_t *SHR; static int CRASHED;
+typedef struct { out_t out[MAXT]; int ntr; pt_t tr[1 << 16]; int nneww; uintptr_t neww[MAXW]; int diverged, deadlock, done, closes; uint64_t npoints; } shr_t; static shr_t *SHR; static int CRASHED;
 static void run_schedule(const uint8_t *pfx, int npfx) { if (!SHR) SHR = (shr_t *)mmap(NULL, sizeof(shr_t), PROT_READ | PROT_WRITE, MAP_SHARED | MAP_ANONYMOUS, -1, 0); SHR->done = 0; CRASHED = 0; fflush(stdout); pid_t pid = fork(); if (pid < 0) vh_harness_error("fork");
-	if (pid == 0) { if (NULLFD < 0) NULLFD = open("/dev/null", O_WRONLY); dup2(NULLFD, 1); alarm(300); uint64_t p0 = NPOINTS; run_schedule2(pfx, npfx); __real_memcpy(SHR->out, OUT, sizeof OUT); SHR->ntr = NTR; __real_memcpy(SHR->tr, TR, sizeof(pt_t) * (size_t)NTR); SHR->nneww = NNEWW; __real_memcpy(SHR->neww, NEWW, sizeof(uintptr_t) * (size_t)NNEWW); SHR->diverged = DIVERGED; SHR->deadlock = DEADLOCK; SHR->npoints = NPOINTS - p0; SHR->done = 1; _exit(0); }
+	if (pid == 0) { if (NULLFD < 0) NULLFD = open("/dev/null", O_WRONLY); dup2(NULLFD, 1); alarm(300); uint64_t p0 = NPOINTS; run_schedule2(pfx, npfx); __real_memcpy(SHR->out, OUT, sizeof OUT); SHR->ntr = NTR; __real_memcpy(SHR->tr, TR, sizeof(pt_t) * (size_t)NTR); SHR->nneww = NNEWW; __real_memcpy(SHR->neww, NEWW, sizeof(uintptr_t) * (size_t)NNEWW); SHR->diverged = DIVERGED; SHR->closes = LIB_CLOSES; SHR->deadlock = DEADLOCK; SHR->npoints = NPOINTS - p0; SHR->done = 1; _exit(0); }
 	int st; while (waitpid(pid, &st, 0) < 0 && errno == EINTR) {} if (!SHR->done) { CRASHED = 1; NTR = 0; return; }
-	__real_memcpy(OUT, SHR->out, sizeof OUT); NTR = SHR->ntr; __real_memcpy(TR, SHR->tr, sizeof(pt_t) * (size_t)NTR); NNEWW = SHR->nneww; __real_memcpy(NEWW, SHR->neww, sizeof(uintptr_t) * (size_t)NNEWW); DIVERGED = SHR->diverged; DEADLOCK = SHR->deadlock; NPOINTS += SHR->npoints; }
+	__real_memcpy(OUT, SHR->out, sizeof OUT); NTR = SHR->ntr; __real_memcpy(TR, SHR->tr, sizeof(pt_t) * (size_t)NTR); NNEWW = SHR->nneww; __real_memcpy(NEWW, SHR->neww, sizeof(uintptr_t) * (size_t)NNEWW); DIVERGED = SHR->diverged; LIB_CLOSES = SHR->closes; DEADLOCK = SHR->deadlock; NPOINTS += SHR->npoints; }
 static void run_schedule2(const uint8_t *pfx, int npfx) { GEN++; NTR = 0; NPFX = npfx; if (npfx) __real_memcpy(PFX, pfx, npfx); DIVERGED = 0; DEADLOCK = 0; pipes_reset(); sem_init(&MAINSEM, 0, 0); pthread_t th[MAXT]; pthread_attr_t at; pthread_attr_init(&at); pthread_attr_setstacksize(&at, 8 << 20);
 	for (int t = 0; t < NT; t++) { DONE[t] = 0; WAITING[t] = -1; sem_init(&SEM[t], 0, 0); } for (int t = 0; t < NT; t++) pthread_create(&th[t], &at, task_thread, (void *)(intptr_t)t);
 	ME = -1; int first = choose_next(-1); CUR = first; sem_post(&SEM[first]); sem_wait(&MAINSEM); for (int t = 0; t < NT; t++) pthread_join(th[t], NULL); pthread_attr_destroy(&at); }
@@ -212,6 +217,7 @@ restart:
 	while (sp) { item it = stack[--sp]; if (vh_deadline_hit()) { vh_capped = 1; free(it.p); continue; } run_schedule(it.p, it.n); NSCHED++; NEXEC++; sched_here++; vh_index++; vh_cases++; vh_block_cases++;
 		int judged = !vh_replay_block || vh_replay_index == vh_index; if (vh_replay_block && vh_index > vh_replay_index) { free(it.p); while (sp) free(stack[--sp].p); break; } char pre[300] = ""; for (int i = 0, o = 0; i < it.n && o < 280; i++) if (it.p[i]) o += snprintf(pre + o, sizeof pre - o, "%d:%d,", i, it.p[i]);
 		if (CRASHED) { if (judged) { char key[240]; snprintf(key, sizeof key, "C20:crash:%s", cn); vh_viol(key, "\"schedule\":\"%s\"", pre); } free(it.p); continue; }
+		if (LIB_CLOSES) { if (judged) { char key[240]; snprintf(key, sizeof key, "C20:library-closes-a-descriptor-the-application-owns:%s", cn); vh_viol(key, "\"closes\":%d,\"schedule\":\"%s\"", LIB_CLOSES, pre); } LIB_CLOSES = 0; }
 		if (DIVERGED) vh_harness_error("schedule prefix diverged on replay (%s, %s)", cn, pre);
 		if (NNEWW) { /* new conflict granules: report as data race, add to W, restart this combination */ for (int i = 0; i < NNEWW && NW < MAXW; i++) { uintptr_t a = NEWW[i] << 3; const char *sy = symbol_of(a); char sb[100]; snprintf(sb, sizeof sb, "%s", sy); char *plus = strchr(sb, '+'); if (plus) *plus = 0; if (judged && (a >= (uintptr_t)__data_start && a < (uintptr_t)_end)) { char key[240]; snprintf(key, sizeof key, "C20:shared-writable-state:%s", sb); vh_viol(key, "\"combination\":\"%s\",\"symbol\":\"%s\",\"schedule\":\"%s\"", cn, sy, pre); } else if (judged) { char key[240]; snprintf(key, sizeof key, "C20:conflicting-access:%s", cn); vh_viol(key, "\"where\":\"%s\",\"schedule\":\"%s\"", sy, pre); } WSET[NW++] = NEWW[i]; W_DIRTY = 1; }
 			while (sp) free(stack[--sp].p); free(it.p); NNEWW = 0; if (++restarts < 40) goto restart; break; }
